@@ -742,6 +742,12 @@ def replay_m(path):
     d = json.load(open(path))
     if d.get('kind') == 'eval_impl':
         return replay_eval_impl(path)
+    if d.get('kind') == 'serdeflag':
+        err = build_tool('serdeflag')
+        p = subprocess.run([os.path.join(BUILD, 'native', 'debug', 'serdeflag')], stdout=subprocess.PIPE, stderr=subprocess.PIPE, text=True, timeout=60)
+        bad = [s for s in (json.loads(l) for l in p.stdout.split('\n') if l.strip().startswith('{')) if not s['ok']]
+        print(json.dumps(bad))
+        return bool(bad)
     if d.get('kind') == 'membership':
         err = build_tool('render')
         inp = '\n'.join(json.dumps(q) for q in d['requests']) + '\n'
@@ -1793,5 +1799,105 @@ def run_membership(prop, tier, seed):
         ev['problems'].append('engine M: `x in [y]` disagrees with `x == y` natively (%s) although the predicate always compares with ==' % bad[0][:200])
     log('[%s] engine M (ops::contains predicate): %s; native grid %d pairs, %d disagreeing' % (prop, ' '.join(r['verdict'] for r in results), len(outs), len(bad)))
     ev['coverage'] = dict(queries=len(results), results=results, native_scenarios=len(outs), native_scenarios_failing=len(bad), check='membership_uses_eq')
+    ev['wall_s'] = round(time.time() - t0, 1)
+    return ev
+
+
+# ---------------------------------------------------------------------------------------------
+# Value::from(Serde(..)) (C15): the thread-local "internal serialization" flag is restored on EVERY exit of the
+# conversion - the normal return AND the unwind path of a panicking Serialize impl (here unwind edges ARE followed)
+# ---------------------------------------------------------------------------------------------
+def successors_with_unwind(term):
+    out = successors(term)
+    m = re.search(r'unwind: (bb\d+)', term)
+    if m:
+        out = out + [('unwind', m.group(1))]
+    return out
+
+
+def check_flag_restored_on_unwind(mir):
+    hdr = None
+    for m in re.finditer(r'^fn value::<impl at [^>]*>::from::\{closure#\d+\}\([^\n]*&Cell<bool>[^\n]*\{$', mir, re.M):
+        hdr = m.group(0)
+    if hdr is None:
+        return 'unknown', dict(kind='the closure that sets the internal-serialization flag was not found'), 0.0, {}
+    text = function_text(mir, '^' + re.escape(hdr[:hdr.index('(')+1]))
+    fn = parse_function(text)
+    guard_locals = set(re.findall(r'let (?:mut )?(_\d+): value::InternalSerializationGuard', text))
+    s_ = z3.Solver()
+    s_.set('timeout', 30000)
+    D = {b: z3.Int('F_%s' % b) for b in fn['blocks']}
+    s_.add(D['bb0'] == 0)
+    n = sets = restores = 0
+    for bid, blk in fn['blocks'].items():
+        t = blk['term']
+        if t in ('return;', 'resume;'):
+            s_.add(D[bid] == 0)
+            continue
+        dst, callee = call_of(t)
+        is_set = bool(callee and re.match(r'Cell::<bool>::replace\(.*const true\)', callee))
+        is_restore = bool(callee and re.match(r'Cell::<bool>::(set|replace)\(', callee) and not is_set)
+        m = re.match(r'drop\((_\d+)\)', t)
+        if m and m.group(1) in guard_locals:
+            is_restore = True
+        sets += is_set
+        restores += is_restore
+        for label, tgt in successors_with_unwind(t):
+            if tgt not in fn['blocks'] or fn['blocks'][tgt]['term'] == 'unreachable;':
+                continue
+            if label == 'ok' and is_set:
+                s_.add(D[tgt] == 1)
+            elif label in ('ok', 'unwind') and is_restore:
+                # a guard's Drop runs also when the drop itself is reached on the cleanup path
+                s_.add(D[tgt] == 0)
+            elif label == 'unwind' and is_set:
+                s_.add(D[tgt] == D[bid])
+            else:
+                s_.add(D[tgt] == D[bid])
+            n += 1
+    t0 = time.time()
+    r = s_.check()
+    dt = time.time() - t0
+    stats = dict(blocks=len(D), edges=n, sets=sets, restores=restores, guard_locals=len(guard_locals))
+    if sets == 0:
+        return 'unknown', dict(kind='no assignment of the flag found'), dt, stats
+    if r == z3.sat:
+        return 'sat', None, dt, stats
+    if r != z3.unsat:
+        return str(r), None, dt, stats
+    return 'unsat', dict(kind='the flag is still set on some exit of the conversion (return or unwinding)'), dt, stats
+
+
+def run_serde_flag(prop, tier, seed):
+    t0 = time.time()
+    ev = dict(engine='M', violations=[], known_hits=[], problems=[], coverage={})
+    try:
+        mir = dump_mir_json(REPO, os.path.join(BUILD, 'mir'))
+    except MirError as e:
+        ev['problems'].append('engine M: %s' % e)
+        return ev
+    verdict, info, dt, stats = check_flag_restored_on_unwind(mir)
+    err = build_tool('serdeflag')
+    if err:
+        ev['problems'].append('engine M: native scenario tool did not build: ' + err[-300:])
+        return ev
+    p = subprocess.run([os.path.join(BUILD, 'native', 'debug', 'serdeflag')], stdout=subprocess.PIPE, stderr=subprocess.PIPE, text=True, timeout=60)
+    scen = [json.loads(l) for l in p.stdout.split('\n') if l.strip().startswith('{')]
+    failing = [s for s in scen if not s['ok']]
+    res = dict(function='<Value as From<Serde<T>>>::from::{closure}', resource='flag_restored_on_unwind', verdict=verdict, z3_s=round(dt, 3), conflict=(info or {}).get('kind'), **stats)
+    if verdict == 'unsat':
+        if failing:
+            rp = os.path.join(nativelib.replay_dir(), '%s-M-serdeflag.json' % prop)
+            json.dump(dict(engine='M', kind='serdeflag', property=prop, mir_finding=res, scenarios=failing, how='bin/check %s --replay %s' % (prop, rp)), open(rp, 'w'), indent=1)
+            ev['violations'].append(dict(replay=rp, failed=[dict(desc='Value::from(Serde(..)): %s; natively: %s' % (res['conflict'], failing[0]['detail'][:220]),
+                                                                 loc='minijinja/src/value/mod.rs (MIR, unwind edges followed)')]))
+        else:
+            ev['problems'].append('engine M: Value::from(Serde(..)): %s, but the native scenario is fine' % res['conflict'])
+    elif verdict != 'sat':
+        ev['problems'].append('engine M: Value::from(Serde(..)): %s %s' % (verdict, res.get('conflict') or ''))
+    elif failing:
+        ev['problems'].append('engine M: native scenario %s misbehaves (%s) although the flag is restored on every exit' % (failing[0]['scenario'], failing[0]['detail'][:200]))
+    log('[%s] engine M (serialization flag, unwind edges followed): %s %s; %d native scenario(s), %d misbehaving' % (prop, verdict, stats, len(scen), len(failing)))
+    ev['coverage'] = dict(queries=1, results=[res], native_scenarios=len(scen), native_scenarios_failing=len(failing), check='flag_restored_on_unwind')
     ev['wall_s'] = round(time.time() - t0, 1)
     return ev
